@@ -19,7 +19,8 @@ EXPLANATION = (
     "the first delete-capable call; the escaping-path test dominates the membership test and raises."
     " Also: (R5) no skip path in the reachability loops; (R6) no fail-open version resolution under the collector's metadata read."
     ' (R7) who-may-delete census (C09.R3); (R8) no function the collector reaches (metadata resolution, manifest readers, backends) converts a failure into a default answer.'
-    ' (R9) the manifest parsers drop no entry (C14.R7).')
+    ' (R9) the manifest parsers drop no entry (C14.R7).'
+    " (R12) recovery orders versions as integers; (R13) strict metadata decoder; (R14) no lexical path normalisation before the collector's `..` guard (C17.R4). R1 accepts a handler that guards a pure computation and raises on every path.")
 NOT_DECIDED = "run-time fault enumeration; corruption classes of files that still parse"
 
 GC = "garbage_collector.GarbageCollector"
@@ -52,6 +53,15 @@ def check(ctx: Ctx) -> None:
     ctx.shared(c20_r2, "C20.R2", "C07.R11", "an unreadable (403 / throttled) marker or manifest is not a missing one")
     from .c20 import r12_stream_faithful
     r12_stream_faithful(ctx, "C07.R12")
+    # fail closed includes resolving the right version when the pointer is lost: recovery orders versions as integers
+    from .c10 import r11 as c10_r11
+    c10_r11(ctx, "C07.R12")
+    # a metadata file that lost a section must fail to load, not load as 'no snapshots' (the collector would delete everything)
+    from .c14 import metadata_reader_is_strict
+    metadata_reader_is_strict(ctx, "C07.R13")
+    # "a listing that returns a path outside the table" must reach the collector's `..` guard unfolded: no lexical normalisation
+    from .c17 import no_lexical_normalisation
+    no_lexical_normalisation(ctx, "C07.R14")
 
 
 def _assigns(ctx: Ctx, f: FunctionInfo, h: ast.ExceptHandler, name: str, value: object) -> bool:
